@@ -3,8 +3,8 @@
    the dialect semantics of Model/C01Sql.v (only SQLite executes in this sandbox; PostgreSQL and MySQL are documentation
    models).  [safe d] is the complement of the recorded per-dialect defects (Findings/C01.v, Findings/C02.v). *)
 Require Import PonyV.Base.PyBase PonyV.Model.C01Expr PonyV.Model.C01Sql PonyV.Model.C01Translate PonyV.Model.C01Safe
-               PonyV.Model.C01Eqb PonyV.Model.C01Query
-               PonyV.Proofs.C01Rows PonyV.Proofs.C02Agree.
+               PonyV.Model.C01Eqb PonyV.Model.C01Query PonyV.Model.C01Join
+               PonyV.Proofs.C01Rows PonyV.Proofs.C01Join PonyV.Proofs.C02Agree PonyV.Proofs.C02Join.
 
 (* a selected expression decodes to the same Python value on any two dialects *)
 Theorem C02_agree_project_except_known : forall d1 d2, modelled d1 = true -> modelled d2 = true ->
@@ -32,6 +32,20 @@ Theorem C02_agree_rows_except_known : forall d1 d2, modelled d1 = true -> modell
   map (dec (TV vt)) (sql_rows d1 false c1 q1 table) = map (dec (TV vt)) (sql_rows d2 false c2 q2 table).
 Proof. exact agree_rows. Qed.
 Print Assumptions C02_agree_rows_except_known.
+
+(* queries with attribute paths through to-one relationships (Model/C01Join.v), select() and left_join(): the same list on
+   any two dialects (rows in the domain of both; a row the inner join drops needs no condition) *)
+Theorem C02_agree_join_rows_except_known : forall d1 d2, modelled d1 = true -> modelled d2 = true ->
+  forall k db params filt tf proj vt c1 q1 c2 q2,
+  ids_unique (tG db) -> ids_unique (tD db) ->
+  ty_of filt = Some tf -> boolable tf = true -> ty_of proj = Some (TV vt) ->
+  tr_filter d1 filt = Some c1 -> tr_project d1 proj = Some q1 ->
+  tr_filter d2 filt = Some c2 -> tr_project d2 proj = Some q2 ->
+  let depth := depth_of [filt; proj] in
+  Forall (fun p => (k = JInner /\ defined depth (flat db p) = false) \/ row_ok2 d1 d2 filt proj (qenv_of db params filt proj p)) (tP db) ->
+  map (dec (TV vt)) (sql_join_rows d1 k depth false c1 q1 params db) = map (dec (TV vt)) (sql_join_rows d2 k depth false c2 q2 params db).
+Proof. exact agree_join_rows. Qed.
+Print Assumptions C02_agree_join_rows_except_known.
 
 (* query[offset:] : each dialect's way of writing "no limit" (SQLite LIMIT -1, MySQL LIMIT 18446744073709551615,
    PostgreSQL LIMIT null) returns exactly the rows after the offset (tables of at most 2^64 - 1 rows) *)
